@@ -515,6 +515,8 @@ class VG:
     def v_assign(self, e, fr):
         v = self.value_noderef(e['r'], fr)
         p = self.place_of(e['l'], fr)
+        if p is not None and p[0] == 'elem':
+            self.event('index', (self.read_place(p[1]), p[2]), e['l'])
         if p is None:
             self.note_unknown('assign-target', e)
             return ('unit',)
@@ -528,6 +530,8 @@ class VG:
     def v_assignop(self, e, fr):
         o = ASSIGN_BIN.get(e['op'])
         p = self.place_of(e['l'], fr)
+        if p is not None and p[0] == 'elem':
+            self.event('index', (self.read_place(p[1]), p[2]), e['l'])
         r = self.value(e['r'], fr)
         if p is None or o is None:
             self.note_unknown('assignop', e)
@@ -812,7 +816,8 @@ class VG:
             inits[('field', fp)] = self.get_field(fp)
             self.fields[fp] = ('mu', L, ('field', fp))
         # bind the item pattern
-        item = self.iter_item(it, L)
+        item, hyps = self.iter_model(it, L)
+        info['hyps'] = hyps
         self.bind_pat(e['pat'], item, fr)
         saved_pc = list(self.pc)
         self.pc.append(('inloop', L))
@@ -835,24 +840,50 @@ class VG:
                 self.writes.append((key[1], self.fields[key[1]], tuple(self.pc), e))
         return ('unit',)
 
-    def iter_item(self, it, L):
-        """The value bound to the loop pattern for iterator descriptor `it`."""
-        k = it[0]
-        if k == 'range':
-            return ('idx', L)
-        if k == 'iter':
-            return ('get', it[1], ('idx', L))
-        if k == 'iter_mut':
-            return ('ref', ('elem', it[1], ('idx', L)))
-        if k == 'enumerate':
-            return ('tuple', (('idx', L), self.iter_item(it[1], L)))
-        if k in ('take', 'skip', 'rev', 'step_by'):
-            return self.iter_item(it[1], L)
-        if k == 'copied':
-            return self.iter_item(it[1], L)
-        if k == 'zip':
-            return ('tuple', (self.iter_item(it[1], L), self.iter_item(it[2], L)))
-        return ('item', L)
+    def iter_model(self, it, L):
+        """(item term bound to the loop pattern, hypotheses on the position variable ('idx', L)).
+
+        ('idx', L) is the position in the base sequence (or the value of a base range). Adaptors are
+        applied from the base outwards: skip raises the lower bound, take bounds the count from the
+        current lower bound, enumerate counts from the current lower bound. Unsupported adaptors give
+        an opaque item (no element/index relation is assumed)."""
+        chain = []
+        cur = it
+        while isinstance(cur, tuple) and cur and cur[0] in ('enumerate', 'take', 'skip', 'copied'):
+            chain.append(cur)
+            cur = cur[1]
+        p = ('idx', L)
+        hyps = []
+        if not isinstance(cur, tuple) or not cur:
+            return ('item', L), []
+        if cur[0] == 'range':
+            lo = cur[1]
+            hyps.append(op('ge', p, lo))
+            hyps.append(op('le' if cur[3] else 'lt', p, cur[2]))
+            item = p
+        elif cur[0] == 'iter':
+            lo = lit(0, 'i')
+            hyps.append(op('lt', p, ('len', cur[1])))
+            item = ('get', cur[1], p)
+        elif cur[0] == 'iter_mut':
+            lo = lit(0, 'i')
+            seq0 = self.read_place(cur[1])
+            hyps.append(op('lt', p, ('len', seq0)))
+            item = ('ref', ('elem', cur[1], p))
+        else:
+            return ('item', L), []
+        for a in reversed(chain):
+            if a[0] == 'skip':
+                lo = op('iadd', lo, a[2]) if lo != lit(0, 'i') else a[2]
+                hyps.append(op('ge', p, lo))
+            elif a[0] == 'take':
+                hyps.append(op('lt', p, op('iadd', lo, a[2]) if lo != lit(0, 'i') else a[2]))
+            elif a[0] == 'enumerate':
+                cnt = p if lo == lit(0, 'i') else op('isub', p, lo)
+                item = ('tuple', (cnt, item))
+            elif a[0] == 'copied':
+                pass
+        return item, hyps
 
     # ------------------------------------------------------------------ calls
     def v_call(self, e, fr):
@@ -1268,6 +1299,10 @@ class VG:
                 ps = [p.get('name') for p in node['params']]
                 if len(ps) == 2 and all(ps) and ('%s.partial_cmp(%s)' % (ps[0], ps[1])) in txt.replace('&', ''):
                     natural = True
+            if isinstance(cl, tuple) and cl[0] == 'closure':
+                for x in walk(cl[2]['body']):
+                    if x.get('k') == 'call' and callee_name(x) in ('std::option::Option::unwrap', 'std::option::Option::expect'):
+                        self.event('unwrap_cmp', (seq_of_iter(it),), x)
             kind = ('max' if short == 'max_by' else 'min') if natural else ('reduce_' + short)
             seq = _iter_seq(it)
             nonempty = op('gt', ('len', seq), lit(0, 'i')) if seq is not None else unk('iter-nonempty')
@@ -1299,6 +1334,11 @@ def _iter_mut_place(it):
         else:
             return None
     return None
+
+
+def seq_of_iter(it):
+    s = _iter_seq(it)
+    return s if s is not None else ('unk', 'iter')
 
 
 def _iter_seq(it):
